@@ -1612,4 +1612,28 @@ pub mod verif_hooks {
         let w = alpha_bits.map_or(Window::Rectangle, |b| Window::Tukey { alpha: f32::from_bits(b) });
         window_weights(&w, size).iter().map(|x| x.to_bits()).collect()
     }
+
+    /// Overwrites this thread's estimator scratch (cast buffer, windowed signal, correlation coefficients)
+    /// with arbitrary contents.  The window cache is state with a meaning, not scratch, and is left alone.
+    pub fn poison_scratch(seed: u64) {
+        let mut s = seed | 1;
+        let mut next = move || {
+            s ^= s << 13;
+            s ^= s >> 7;
+            s ^= s << 17;
+            s
+        };
+        let n = (next() % 6000) as usize;
+        let g: Vec<i32> = (0..n).map(|_| next() as i32).collect();
+        CAST_BUFFER.with(|c| c.borrow_mut().reset_from_slice(&g));
+        let m = (next() % 6000) as usize;
+        let gf: Vec<f32> = (0..m).map(|_| (next() % 65536) as f32 - 32768.0).collect();
+        let k = (next() % 40) as usize;
+        let gc: Vec<f64> = (0..k).map(|_| (next() % 65536) as f64 - 32768.0).collect();
+        LPC_ESTIMATOR.with(|e| {
+            let mut e = e.borrow_mut();
+            e.windowed_signal.reset_from_slice(&gf);
+            e.corr_coefs = gc;
+        });
+    }
 }
